@@ -404,6 +404,15 @@ func (ct *ContractTable) parseFile(repo, file string) error {
 				kind := fs[1]
 				r := fs[2]
 				if kind == "modifies" {
+					if cur.LoopMod == nil {
+						cur.LoopMod = map[int][]SExpr{}
+					}
+					if cur.LoopMod[n] == nil {
+						cur.LoopMod[n] = []SExpr{}
+					}
+					if strings.TrimSpace(r) == "nothing" {
+						continue
+					}
 					for _, part := range splitTopLevel(r, ',') {
 						part = strings.TrimSpace(part)
 						if part == "" {
